@@ -205,6 +205,15 @@ pub fn cmd(_args: &[String]) {
                     Err(p) => ("panic".to_string(), String::new(), String::new(), panic_message(&p)),
                 }
             }
+            // value serialisation (C12): the program's value through SeSeed / DeSeed, into this VM and a fresh one, with
+            // a collection between loading and using it
+            "valueser" => {
+                let vm = entry.0.clone();
+                match catch_unwind(AssertUnwindSafe(|| crate::bytecode::value_roundtrip(&vm, src, &s))) {
+                    Ok(v) => ("ok".to_string(), v.to_string(), String::new(), String::new()),
+                    Err(p) => ("panic".to_string(), String::new(), String::new(), panic_message(&p)),
+                }
+            }
             // formatter (C10): the formatted text
             "format" => {
                 let vm = entry.0.clone();
